@@ -7,16 +7,38 @@
 //	                ranged expression, a normalized summary ("shape") of what the loop body does, and the loop statement
 //	                itself printed without comments and layout ("body")
 //	goStatements    every `go` statement
-//	wallClockUses   every reference to time.Now / time.Since / time.Until / time.After / time.Tick / time.Sleep / time.NewTimer / time.NewTicker
+//	wallClockUses   every reference to time.Now / time.Since / time.Until / time.After / time.AfterFunc / time.Tick / time.Sleep /
+//	                time.NewTimer / time.NewTicker
 //	randUses        every reference to an object of math/rand, math/rand/v2 or crypto/rand
-//	taintedCallers  transitive closure: every scanned function that calls a scanned function which uses rand or the wall
-//	                clock (one entry per newly tainted function: file, function, the tainted callee it reaches)
-//	envUses         every reference to os.Getenv / os.LookupEnv / os.Environ / os.Hostname / os.Getpid
+//	taintedCallers  transitive closure: every scanned function that calls a scanned function which uses rand, the wall
+//	                clock, the environment (os.…) or the machine's time zone (one entry per newly tainted function: file,
+//	                function, the tainted callee it reaches)
+//	envUses         every reference to os.Getenv / LookupEnv / Environ / ExpandEnv / Hostname / Getpid / Getppid / Getuid / Geteuid /
+//	                Getgid / Getwd / Args / Executable / UserHomeDir / UserCacheDir / UserConfigDir / TempDir / ReadFile / ReadDir /
+//	                Open / OpenFile / Stat / Lstat, runtime.NumGoroutine / NumCPU / GOMAXPROCS / Gosched / GOOS / GOARCH / Version /
+//	                Caller / Callers / Stack / ReadMemStats / NumCgoCall / GC
 //	selectStmts     every `select` statement
 //	unsafeUses      every conversion of an unsafe.Pointer / pointer value to an integer type (uintptr …), and fmt %p verbs
 //	chanOps         every channel make / send / receive (goroutine communication)
 //	mapArgsExternal every call that hands a map-typed argument to a function outside the scanned packages (which could
 //	                iterate it: maps.Keys, reflect, fmt, SDK constructors …)
+//
+//	sortSites       every call of sort.Slice / SliceStable / Sort / Stable / Strings / Ints / Float64s, slices.Sort* and of
+//	                container/heap: file, function, sort function, whether it is STABLE, the sorted slice, the text of the
+//	                comparison, the texts of the scanned methods the comparison calls (one level: HasPriority …) and the
+//	                ORIGIN of the slice's order: "maprange" (appended to inside a map range of the same function),
+//	                "param<-maprange(<caller>)" (a parameter, and some scanned caller passes a slice it appended to in a
+//	                map range), "param", "local". A non-total comparison on an order that came out of a map is a classic
+//	                nondeterminism (ties stay in / are permuted from the input order).
+//	floatUses       every use of floating point: objects of package math, strconv.ParseFloat / FormatFloat, methods named
+//	                MustFloat64 / Float64 / Float32, conversions to float32 / float64, %e %f %g verbs in string literals
+//	reflectUses     every reference to an object of package reflect (reflect.Value.MapRange / MapKeys iterate maps in
+//	                random order)
+//	syncUses        every reference to an object of sync / sync/atomic (sync.Map.Range is unordered; a mutex or a
+//	                WaitGroup in consensus code means there is concurrency to protect)
+//	zoneUses        everything that reads the machine's time zone: time.Local, time.LoadLocation, time.Unix / UnixMilli /
+//	                UnixMicro (their result is in the LOCAL zone: formatting it, or taking its date / clock, depends on TZ),
+//	                methods Time.Local / Zone / ZoneBounds / Location
 //
 //	packageVars          number of package-level `var`s declared in the scanned files
 //	mutablePackageState  every write, from a NON-init function of the scanned code, to a package-level variable of a
@@ -64,6 +86,70 @@ type site struct {
 type use struct {
 	file, fn, what string
 	line          int
+}
+
+type sortSite struct {
+	file, fn, sortFn, slice, less, callees, origin string
+	stable                                         bool
+	line                                           int
+}
+
+// objName: pkg.Name, or pkg.Recv.Name for methods
+func objName(obj types.Object) string {
+	pp := ""
+	if obj.Pkg() != nil {
+		pp = obj.Pkg().Path()
+	}
+	if f, ok := obj.(*types.Func); ok {
+		if sig, ok := f.Type().(*types.Signature); ok && sig.Recv() != nil {
+			t := sig.Recv().Type()
+			if p, ok := t.(*types.Pointer); ok {
+				t = p.Elem()
+			}
+			if n, ok := t.(*types.Named); ok {
+				return pp + "." + n.Obj().Name() + "." + obj.Name()
+			}
+		}
+	}
+	return pp + "." + obj.Name()
+}
+
+var stableSorts = map[string]bool{"sort.SliceStable": true, "sort.Stable": true, "slices.SortStableFunc": true}
+
+// appendedInMapRange: does fn contain a range over a map whose body appends to the slice expression `target`?
+func appendedInMapRange(info *types.Info, fn *ast.FuncDecl, target string) bool {
+	found := false
+	if fn == nil || fn.Body == nil {
+		return false
+	}
+	ast.Inspect(fn.Body, func(n ast.Node) bool {
+		rs, ok := n.(*ast.RangeStmt)
+		if !ok || !isMap(info.TypeOf(rs.X)) {
+			return true
+		}
+		ast.Inspect(rs.Body, func(m ast.Node) bool {
+			as, ok := m.(*ast.AssignStmt)
+			if !ok {
+				return true
+			}
+			for i, lhs := range as.Lhs {
+				var rhs ast.Expr
+				if len(as.Rhs) == len(as.Lhs) {
+					rhs = as.Rhs[i]
+				} else if len(as.Rhs) == 1 {
+					rhs = as.Rhs[0]
+				}
+				if ce, ok := rhs.(*ast.CallExpr); ok {
+					if id, ok := ce.Fun.(*ast.Ident); ok && id.Name == "append" && nodeStr(lhs) == target {
+						found = true
+					}
+				}
+			}
+			return true
+		})
+		return true
+	})
+	return found
 }
 
 var fset *token.FileSet
@@ -471,6 +557,13 @@ func shapeOf(info *types.Info, fn *ast.FuncDecl, rs *ast.RangeStmt) string {
 	return strings.Join(parts, "+")
 }
 
+type pf struct {
+	p  *packages.Package
+	f  *ast.File
+	fn string
+}
+type pfRef = pf
+
 func main() {
 	repo := flag.String("repo", "/repo", "path to the comdex working tree")
 	out := flag.String("out", "", "output Lean file")
@@ -501,14 +594,18 @@ func main() {
 	}
 	sort.Slice(pkgs, func(i, j int) bool { return pkgs[i].PkgPath < pkgs[j].PkgPath })
 	var sites []site
-	var gos, clocks, rands, envs, selects, unsafes, chans, randCallers, mapArgs []use
+	var gos, clocks, rands, envs, selects, unsafes, chans, randCallers, mapArgs, floats, reflects, syncs, zones []use
+	var sorts []sortSite
+	type sortCall struct {
+		x    pfRef
+		fd   *ast.FuncDecl
+		ce   *ast.CallExpr
+		name string
+		fn   string
+	}
+	var sortCalls []sortCall
 	nPkgs, nFiles, nFuncs := 0, 0, 0
 	randFuncs := map[types.Object]bool{}
-	type pf struct {
-		p  *packages.Package
-		f  *ast.File
-		fn string
-	}
 	var files []pf
 	for _, p := range pkgs {
 		if excludedPkg(p.PkgPath) {
@@ -589,7 +686,29 @@ func main() {
 					if s.Op == token.ARROW {
 						chans = append(chans, use{rel, fname, "recv", pos(s)})
 					}
+				case *ast.BasicLit:
+					if s.Kind == token.STRING {
+						for _, v := range []string{"%e", "%E", "%f", "%F", "%g", "%G"} {
+							if strings.Contains(s.Value, v) {
+								floats = append(floats, use{rel, fname, "fmt:" + v, pos(s)})
+							}
+						}
+					}
 				case *ast.CallExpr:
+					// sort calls
+					{
+						name := nodeStr(s.Fun)
+						if sortFuncs[name] || name == "heap.Init" || name == "heap.Push" || name == "heap.Pop" || name == "heap.Fix" || name == "sort.Float64s" {
+							realFd, _ := d.(*ast.FuncDecl)
+							sortCalls = append(sortCalls, sortCall{x, realFd, s, name, fname})
+						}
+					}
+					// conversions to a floating-point type
+					if tv, ok := info.Types[s.Fun]; ok && tv.IsType() && len(s.Args) == 1 {
+						if b, ok := tv.Type.Underlying().(*types.Basic); ok && b.Info()&types.IsFloat != 0 {
+							floats = append(floats, use{rel, fname, "conv:" + b.Name(), pos(s)})
+						}
+					}
 					// a map handed to code outside the scanned packages (which may iterate it)
 					{
 						var obj types.Object
@@ -650,7 +769,39 @@ func main() {
 					}
 					pp := obj.Pkg().Path()
 					switch pp {
+					case "math", "math/cmplx", "math/big":
+						if _, isFn := obj.(*types.Func); isFn && (pp != "math/big" || strings.Contains(objName(obj), "Float")) {
+							floats = append(floats, use{rel, fname, objName(obj), pos(s)})
+						}
+					case "strconv":
+						if obj.Name() == "ParseFloat" || obj.Name() == "FormatFloat" || obj.Name() == "AppendFloat" {
+							floats = append(floats, use{rel, fname, "strconv." + obj.Name(), pos(s)})
+						}
+					case "reflect":
+						reflects = append(reflects, use{rel, fname, objName(obj), pos(s)})
+					case "sync", "sync/atomic":
+						syncs = append(syncs, use{rel, fname, objName(obj), pos(s)})
+					}
+					if f, isFn := obj.(*types.Func); isFn {
+						switch f.Name() {
+						case "MustFloat64", "Float64", "Float32":
+							if sig, ok := f.Type().(*types.Signature); ok && sig.Recv() != nil {
+								floats = append(floats, use{rel, fname, "method:" + objName(obj), pos(s)})
+							}
+						}
+					}
+					switch pp {
 					case "time":
+						switch objName(obj) {
+						case "time.Local", "time.LoadLocation", "time.LoadLocationFromTZData", "time.Unix", "time.UnixMilli", "time.UnixMicro",
+							"time.Time.Local", "time.Time.Zone", "time.Time.ZoneBounds", "time.Time.Location":
+							zones = append(zones, use{rel, fname, objName(obj), pos(s)})
+							if dd, ok := d.(*ast.FuncDecl); ok {
+								if o := info.Defs[dd.Name]; o != nil {
+									randFuncs[o] = true
+								}
+							}
+						}
 						switch obj.Name() {
 						case "Now", "Since", "Until", "After", "Tick", "Sleep", "NewTimer", "NewTicker", "AfterFunc":
 							if _, isFn := obj.(*types.Func); isFn && obj.Parent() == obj.Pkg().Scope() {
@@ -671,14 +822,20 @@ func main() {
 						}
 					case "os":
 						switch obj.Name() {
-						case "Getenv", "LookupEnv", "Environ", "Hostname", "Getpid", "Getppid", "Getwd":
+						case "Getenv", "LookupEnv", "Environ", "ExpandEnv", "Hostname", "Getpid", "Getppid", "Getuid", "Geteuid", "Getgid", "Getwd", "Args",
+							"Executable", "UserHomeDir", "UserCacheDir", "UserConfigDir", "TempDir", "ReadFile", "ReadDir", "Open", "OpenFile", "Stat", "Lstat":
 							envs = append(envs, use{rel, fname, "os." + obj.Name(), pos(s)})
+							if dd, ok := d.(*ast.FuncDecl); ok {
+								if o := info.Defs[dd.Name]; o != nil {
+									randFuncs[o] = true
+								}
+							}
 						}
 					case "unsafe":
 						unsafes = append(unsafes, use{rel, fname, "unsafe." + obj.Name(), pos(s)})
 					case "runtime":
 						switch obj.Name() {
-						case "NumGoroutine", "NumCPU", "GOMAXPROCS", "Gosched":
+						case "NumGoroutine", "NumCPU", "GOMAXPROCS", "Gosched", "GOOS", "GOARCH", "Version", "Caller", "Callers", "Stack", "ReadMemStats", "NumCgoCall", "GC":
 							envs = append(envs, use{rel, fname, "runtime." + obj.Name(), pos(s)})
 						}
 					}
@@ -687,6 +844,134 @@ func main() {
 			})
 		}
 	}
+	// sort sites: comparison text, called comparison methods, origin of the input order
+	methodsByName := map[string][]string{}
+	for obj, dd := range declIndex {
+		if dd.Recv != nil && dd.Body != nil {
+			_ = obj
+			methodsByName[dd.Name.Name] = append(methodsByName[dd.Name.Name], funcName(dd)+nodeStr(dd.Body))
+		}
+	}
+	for _, sc := range sortCalls {
+		info := sc.x.p.TypesInfo
+		st := sortSite{file: sc.x.fn, fn: sc.fn, sortFn: sc.name, stable: stableSorts[sc.name], line: fset.Position(sc.ce.Pos()).Line}
+		if len(sc.ce.Args) == 0 {
+			continue
+		}
+		st.slice = nodeStr(sc.ce.Args[0])
+		var lessNode ast.Node
+		if len(sc.ce.Args) >= 2 {
+			if fl, ok := sc.ce.Args[1].(*ast.FuncLit); ok {
+				lessNode = fl.Body
+				st.less = nodeStr(fl.Body)
+			} else {
+				st.less = "<func value " + nodeStr(sc.ce.Args[1]) + ">"
+			}
+		} else if sc.name == "sort.Strings" || sc.name == "sort.Ints" || sc.name == "sort.Float64s" || sc.name == "slices.Sort" {
+			st.less = "<whole element>"
+		} else {
+			// sort.Sort / sort.Stable / heap.*: the Less method of the argument's type, if it is scanned code
+			st.less = "<interface>"
+			t := info.TypeOf(sc.ce.Args[0])
+			if t != nil {
+				if p, ok := t.(*types.Pointer); ok {
+					t = p.Elem()
+				}
+				if n, ok := t.(*types.Named); ok {
+					for i := 0; i < n.NumMethods(); i++ {
+						if m := n.Method(i); m.Name() == "Less" {
+							if dd := declIndex[m]; dd != nil && dd.Body != nil {
+								lessNode = dd.Body
+								st.less = nodeStr(dd.Body)
+							}
+						}
+					}
+				}
+			}
+		}
+		if lessNode != nil {
+			seen := map[string]bool{}
+			var cs []string
+			ast.Inspect(lessNode, func(n ast.Node) bool {
+				ce, ok := n.(*ast.CallExpr)
+				if !ok {
+					return true
+				}
+				sel, ok := ce.Fun.(*ast.SelectorExpr)
+				if !ok {
+					return true
+				}
+				obj := info.Uses[sel.Sel]
+				if obj == nil || obj.Pkg() == nil || !scannedPkg[obj.Pkg().Path()] || seen[sel.Sel.Name] {
+					return true
+				}
+				seen[sel.Sel.Name] = true
+				cs = append(cs, methodsByName[sel.Sel.Name]...)
+				return true
+			})
+			sort.Strings(cs)
+			st.callees = strings.Join(cs, " | ")
+		}
+		// origin of the order of the slice
+		st.origin = "local"
+		if sc.fd == nil {
+			st.origin = "init"
+		} else if appendedInMapRange(info, sc.fd, st.slice) {
+			st.origin = "maprange"
+		} else if root := rootIdent(sc.ce.Args[0]); root != nil {
+			paramIdx := -1
+			idx := 0
+			for _, fld := range sc.fd.Type.Params.List {
+				for _, nm := range fld.Names {
+					if info.Defs[nm] != nil && info.Defs[nm] == info.ObjectOf(root) {
+						paramIdx = idx
+					}
+					idx++
+				}
+			}
+			if paramIdx >= 0 {
+				st.origin = "param"
+				self := info.Defs[sc.fd.Name]
+				for _, y := range files {
+					yi := y.p.TypesInfo
+					for _, d := range y.f.Decls {
+						cd, ok := d.(*ast.FuncDecl)
+						if !ok || cd.Body == nil {
+							continue
+						}
+						ast.Inspect(cd.Body, func(n ast.Node) bool {
+							ce, ok := n.(*ast.CallExpr)
+							if !ok {
+								return true
+							}
+							var obj types.Object
+							switch f := ce.Fun.(type) {
+							case *ast.Ident:
+								obj = yi.Uses[f]
+							case *ast.SelectorExpr:
+								obj = yi.Uses[f.Sel]
+							}
+							if obj == nil || obj != self || paramIdx >= len(ce.Args) {
+								return true
+							}
+							if appendedInMapRange(yi, cd, nodeStr(ce.Args[paramIdx])) {
+								st.origin = "param<-maprange(" + funcName(cd) + ")"
+							}
+							return true
+						})
+					}
+				}
+			}
+		}
+		sorts = append(sorts, st)
+	}
+	sort.Slice(sorts, func(i, j int) bool {
+		if sorts[i].file != sorts[j].file {
+			return sorts[i].file < sorts[j].file
+		}
+		return sorts[i].line < sorts[j].line
+	})
+
 	// package-level mutable state
 	var pkgState []use
 	nPkgVars := 0
@@ -895,6 +1180,22 @@ func main() {
 	emit("unsafeUses", unsafes)
 	emit("chanOps", chans)
 	emit("mapArgsExternal", mapArgs)
+	emit("floatUses", floats)
+	emit("reflectUses", reflects)
+	emit("syncUses", syncs)
+	emit("zoneUses", zones)
+	b.WriteString("structure SortSite where\n  file : String\n  line : Nat\n  fn : String\n  sortFn : String\n  stable : Bool\n  slice : String\n  less : String\n  callees : String\n  origin : String\n  deriving Repr, DecidableEq\n\n")
+	b.WriteString("def sortSites : List SortSite := [\n")
+	for i, s := range sorts {
+		sep := ","
+		if i == len(sorts)-1 {
+			sep = ""
+		}
+		fmt.Fprintf(&b, "  { file := %s, line := %d, fn := %s, sortFn := %s, stable := %v, slice := %s,\n    less := %s,\n    callees := %s,\n    origin := %s }%s\n",
+			leanStr(s.file), s.line, leanStr(s.fn), leanStr(s.sortFn), s.stable, leanStr(s.slice), leanStr(s.less), leanStr(s.callees), leanStr(s.origin), sep)
+	}
+	b.WriteString("]\n\n")
+	b.WriteString("/-- line-number-free key of a sort site -/\ndef SortSite.key (s : SortSite) : String × String × String × String := (s.file, s.fn, s.sortFn, s.origin)\n\n")
 	fmt.Fprintf(&b, "def packageVars : Nat := %d\n\n", nPkgVars)
 	emit("mutablePackageState", pkgState)
 	// deduplicated (top-level directory, callee) pairs of mapArgsExternal: what the obligation is stated over
@@ -934,6 +1235,6 @@ func main() {
 	if err := os.WriteFile(*out, []byte(b.String()), 0o644); err != nil {
 		panic(err)
 	}
-	fmt.Printf("determinism: %d packages, %d files, %d funcs; %d map ranges, %d go, %d clock, %d rand, %d env, %d select, %d unsafe, %d chan\n",
-		nPkgs, nFiles, nFuncs, len(sites), len(gos), len(clocks), len(rands), len(envs), len(selects), len(unsafes), len(chans))
+	fmt.Printf("determinism: %d packages, %d files, %d funcs; %d map ranges, %d go, %d clock, %d rand, %d env, %d select, %d unsafe, %d chan, %d sort, %d float, %d reflect, %d sync, %d zone\n",
+		nPkgs, nFiles, nFuncs, len(sites), len(gos), len(clocks), len(rands), len(envs), len(selects), len(unsafes), len(chans), len(sorts), len(floats), len(reflects), len(syncs), len(zones))
 }
